@@ -56,10 +56,12 @@ Qed.
 Lemma FI_prune f d : FI f -> FI (prune f d).
 Proof. intros F. unfold prune. destruct (digest_dir_used f d); auto. apply (FI_same f); auto. Qed.
 
-Lemma cache_remove_FI f a : FI f -> FI (cache_remove f a).
+Lemma FI_reseal p50 f d : FI f -> FI (reseal p50 f d).
+Proof. intros F. unfold reseal. destruct (p50 && digest_dir_used f d); auto using FI_dput. Qed.
+Lemma cache_remove_FI p50 f a : FI f -> FI (cache_remove p50 f a).
 Proof.
   intros F. unfold cache_remove. destruct (obj_exists f a); [|apply FI_prune; auto].
-  apply FI_prune. set (f1 := dput f (a_digest a) true).
+  apply FI_prune. apply FI_reseal. set (f1 := dput f (a_digest a) true).
   assert (F1 : FI f1) by (apply FI_dput; auto).
   destruct (oget f1 a) as [e0|] eqn:G; [|apply FI_odel; auto].
   destruct (fi_obj F1 a e0 G) as (i & n & -> & Hi & Hw & Hf).
@@ -79,7 +81,7 @@ Proof.
   - intros a1 a2 j. rewrite !oget_odel. destruct (caddr_eqb a a1); [discriminate|]. destruct (caddr_eqb a a2); [discriminate|].
     apply I.
 Qed.
-Lemma cache_removes_FI l : forall f, FI f -> FI (fold_left cache_remove l f).
+Lemma cache_removes_FI p50 l : forall f, FI f -> FI (fold_left (cache_remove p50) l f).
 Proof. induction l as [|a t IH]; intros f F; cbn [fold_left]; auto using cache_remove_FI. Qed.
 
 (* ---- the records through untrack (move: Repo/ExtShare.v) ---- *)
@@ -474,4 +476,152 @@ Proof.
       destruct (move_cmd fl o s d r) as [r' oc] eqn:E. cbn [fst].
       destruct (move_cmd_spec fl o s d r r' oc l Wf Wr PL E) as (_ & OB & HO & _). apply KEPT; auto.
       unfold oget. rewrite OB. exact O.
+Qed.
+
+(* ---- the repair of P50: XvcCachePath::remove leaves the directories that still hold objects read-only ---------------- *)
+Lemma dget_ddel f d d' : dget (ddel f d) d' = if digest_eqb d d' then None else dget f d'.
+Proof. unfold dget, ddel, set_dirw; cbn [dirw]. apply (@get_del _ _ _ digest_eqb_spec). Qed.
+Lemma obj_uses_dir f b : oget f b <> None -> digest_dir_used f (a_digest b) = true.
+Proof.
+  intros H. destruct (oget f b) as [e|] eqn:G; [|congruence].
+  unfold oget in G. apply (@get_In _ _ _ caddr_eqb_spec) in G.
+  unfold digest_dir_used. apply existsb_exists. exists (b, e). split; [exact G|].
+  cbn [fst]. destruct (digest_eqb_spec (a_digest b) (a_digest b)); congruence.
+Qed.
+Lemma DRO_prune f d : DRO f -> DRO (prune f d).
+Proof.
+  intros D. unfold prune. destruct (digest_dir_used f d) eqn:U; [exact D|].
+  intros b H. change (oget (ddel f d) b) with (oget f b) in H. rewrite dget_ddel.
+  destruct (digest_eqb_spec d (a_digest b)) as [->|NE]; [|apply D; exact H].
+  rewrite (obj_uses_dir f b H) in U. discriminate.
+Qed.
+Lemma cache_remove_DRO f a : DRO f -> DRO (cache_remove true f a).
+Proof.
+  intros D. unfold cache_remove. destruct (obj_exists f a); [|apply DRO_prune; exact D].
+  apply DRO_prune. set (f1 := dput f (a_digest a) true).
+  set (f2 := match oget f1 a with Some e => chmod_w_through f1 e | None => f1 end).
+  assert (O2 : forall b, oget f2 b = oget f b).
+  { intros b. unfold f2. destruct (oget f1 a) as [e|]; [|reflexivity].
+    unfold chmod_w_through. destruct (resolve f1 link_fuel e) as [i|]; [|reflexivity]. destruct (iget f1 i); reflexivity. }
+  assert (D2 : forall d, dget f2 d = dget f1 d).
+  { intros d. unfold f2. destruct (oget f1 a) as [e|]; [|reflexivity].
+    unfold chmod_w_through. destruct (resolve f1 link_fuel e) as [i|]; [|reflexivity]. destruct (iget f1 i); reflexivity. }
+  unfold reseal. cbn [andb]. intros b H.
+  assert (Hb : oget (odel f2 a) b <> None).
+  { destruct (digest_dir_used (odel f2 a) (a_digest a)); exact H. }
+  assert (Hf : oget f b <> None).
+  { rewrite oget_odel in Hb. destruct (caddr_eqb a b); [congruence|]. rewrite O2 in Hb. exact Hb. }
+  destruct (digest_eqb_spec (a_digest a) (a_digest b)) as [E|NE].
+  - rewrite E. rewrite (obj_uses_dir _ b Hb). rewrite dget_dput.
+    destruct (digest_eqb_spec (a_digest b) (a_digest b)); congruence.
+  - assert (G : dget (odel f2 a) (a_digest b) = Some false).
+    { rewrite dget_odel, D2. unfold f1. rewrite dget_dput. destruct (digest_eqb_spec (a_digest a) (a_digest b)); [congruence|]. apply D; exact Hf. }
+    destruct (digest_dir_used (odel f2 a) (a_digest a)); [|exact G].
+    rewrite dget_dput. destruct (digest_eqb_spec (a_digest a) (a_digest b)); [congruence|exact G].
+Qed.
+Lemma cache_removes_DRO l : forall f, DRO f -> DRO (fold_left (cache_remove true) l f).
+Proof. induction l as [|a t IH]; intros f D; cbn [fold_left]; auto using cache_remove_DRO. Qed.
+
+(* the re-materialisation loop of untrack leaves the object table and the object directories alone *)
+Lemma rfc_cache_same f p a m :
+  objs (fst (recheck_from_cache f p a m)) = objs f /\ dirw (fst (recheck_from_cache f p a m)) = dirw f.
+Proof.
+  unfold recheck_from_cache. cbv zeta.
+  set (f0 := if ws_exists f p then wdel f p else f).
+  assert (E0 : objs f0 = objs f /\ dirw f0 = dirw f) by (unfold f0; destruct (ws_exists f p); split; reflexivity).
+  destruct E0 as (Eo & Ed).
+  destruct m.
+  - destruct (obj_read f0 a); [|cbn [fst]; auto]. destruct (wget f0 p) as [[?|?]|]; cbn [fst]; auto.
+  - destruct (wget f0 p); [cbn [fst]; auto|]. destruct (oget f0 a) as [[?|?]|]; cbn [fst]; auto.
+  - destruct (wget f0 p); cbn [fst]; auto.
+  - destruct (obj_read f0 a); [|cbn [fst]; auto]. destruct (wget f0 p) as [[?|?]|]; cbn [fst]; auto.
+Qed.
+Lemma materialise_cache_same fl : forall tg f f' oc, materialise fl f tg = (f', oc) -> objs f' = objs f /\ dirw f' = dirw f.
+Proof.
+  induction tg as [|[e x] t IH]; intros f f' oc; cbn [materialise].
+  - intros E; injection E as <- <-; auto.
+  - destruct (wget f (r_path x)) as [en|].
+    2:{ destruct (fixed_P8 fl); [apply IH|intros E; injection E as <- <-; auto]. }
+    destruct (r_digest x) as [d|].
+    2:{ destruct en; [apply IH|]. destruct (fixed_P8 fl); [apply IH|intros E; injection E as <- <-; auto]. }
+    destruct (needs_copy fl f en (cache_addr (r_path x) d)); [|apply IH].
+    destruct (fixed_P47 fl && negb (obj_exists f (cache_addr (r_path x) d))); [apply IH|].
+    destruct (rfc_cache_same f (r_path x) (cache_addr (r_path x) d) Copy) as (Eo & Ed).
+    destruct (recheck_from_cache f (r_path x) (cache_addr (r_path x) d) Copy) as [f1 [| |]]; cbn [fst] in Eo, Ed.
+    + intros E. destruct (IH _ _ _ E) as (A & B). split; congruence.
+    + intros E; injection E as <- <-; auto.
+    + intros E; injection E as <- <-; auto.
+Qed.
+Lemma DRO_same f g : objs g = objs f -> dirw g = dirw f -> DRO f -> DRO g.
+Proof. intros Eo Ed D b. unfold oget, dget. rewrite Eo, Ed. apply D. Qed.
+
+Theorem remove_cmd_DRO fl o targets r :
+  fixed_P50 fl = true -> DRO (xfs r) -> DRO (xfs (fst (remove_cmd fl o targets r))).
+Proof.
+  intros P D. unfold remove_cmd. cbv zeta. rewrite P.
+  match goal with |- context [match ?cands with Some _ => _ | None => _ end] => destruct cands as [l|] end; cbn [fst]; [|exact D].
+  change (xfs (set_xfs r ?f)) with f. apply cache_removes_DRO. exact D.
+Qed.
+Theorem untrack_cmd_DRO fl targets r :
+  fixed_P50 fl = true -> DRO (xfs r) -> DRO (xfs (fst (untrack_cmd fl targets r))).
+Proof.
+  intros P D. unfold untrack_cmd. cbv zeta. rewrite P.
+  destruct (negb (fixed_P8 fl) && match select_dirs r targets with [] => false | _ => true end); [exact D|].
+  destruct (materialise fl (xfs r) (select r targets)) as [f1 oc1] eqn:MT.
+  destruct (materialise_cache_same _ _ _ _ _ MT) as (Eo & Ed).
+  assert (D1 : DRO f1) by (apply (DRO_same (xfs r)); auto).
+  destruct oc1; cbn [fst]; try exact D1.
+  change (xfs (set_xfs ?x ?f)) with f. apply cache_removes_DRO. exact D1.
+Qed.
+
+(* one XvcCachePath::remove, both values of the switch: the directories stay read-only unless the deleted file leaves a
+   sibling (another extension of the same digest) behind and the repair is absent *)
+Definition K_sibling_left (p50 : bool) (f : fsys) (a : caddr) : bool :=
+  negb p50 && obj_exists f a &&
+  existsb (fun be => digest_eqb (a_digest (fst be)) (a_digest a) && negb (caddr_eqb (fst be) a)) (objs f).
+Lemma K_sibling_left_empty_when_fixed_lemma f a : K_sibling_left true f a = false.
+Proof. reflexivity. Qed.
+Lemma In_del_objs (m : list (caddr * entry)) a b e : In (b, e) (del caddr_eqb m a) -> In (b, e) m /\ b <> a.
+Proof.
+  induction m as [|[k v] t IH]; cbn [del]; [intros []|].
+  destruct (caddr_eqb_spec k a) as [->|NE].
+  - intros I. destruct (IH I). split; [right|]; auto.
+  - intros [E|I]; [injection E as -> ->; split; [left; reflexivity|exact NE]|destruct (IH I); split; [right|]; auto].
+Qed.
+Lemma cache_remove_DRO_outside p50 f a : K_sibling_left p50 f a = false -> DRO f -> DRO (cache_remove p50 f a).
+Proof.
+  destruct p50; [intros _; apply cache_remove_DRO|].
+  intros K D. unfold cache_remove. unfold K_sibling_left in K. cbn [negb andb] in K.
+  destruct (obj_exists f a); [|apply DRO_prune; exact D]. cbn [andb] in K.
+  unfold reseal. cbn [andb]. set (f1 := dput f (a_digest a) true).
+  set (f2 := match oget f1 a with Some e => chmod_w_through f1 e | None => f1 end).
+  assert (O2 : objs f2 = objs f).
+  { unfold f2. destruct (oget f1 a) as [e|]; [|reflexivity].
+    unfold chmod_w_through. destruct (resolve f1 link_fuel e) as [i|]; [|reflexivity]. destruct (iget f1 i); reflexivity. }
+  assert (D2 : forall d, dget f2 d = dget f1 d).
+  { intros d. unfold f2. destruct (oget f1 a) as [e|]; [|reflexivity].
+    unfold chmod_w_through. destruct (resolve f1 link_fuel e) as [i|]; [|reflexivity]. destruct (iget f1 i); reflexivity. }
+  assert (U : digest_dir_used (odel f2 a) (a_digest a) = false).
+  { destruct (digest_dir_used (odel f2 a) (a_digest a)) eqn:U; [|reflexivity]. exfalso.
+    unfold digest_dir_used in U. apply existsb_exists in U. destruct U as ([b e] & I & E). cbn [fst] in E.
+    unfold odel, set_objs in I. cbn [objs] in I. rewrite O2 in I. apply In_del_objs in I. destruct I as (I & NE).
+    assert (X : existsb (fun be : caddr * entry => digest_eqb (a_digest (fst be)) (a_digest a) && negb (caddr_eqb (fst be) a)) (objs f) = true).
+    { apply existsb_exists. exists (b, e). split; [exact I|]. cbn [fst]. rewrite E. destruct (caddr_eqb_spec b a); [contradiction|reflexivity]. }
+    rewrite X in K. discriminate. }
+  unfold prune. rewrite U. intros b H.
+  change (oget (ddel (odel f2 a) (a_digest a)) b) with (oget (odel f2 a) b) in H.
+  rewrite dget_ddel. destruct (digest_eqb_spec (a_digest a) (a_digest b)) as [E|NE].
+  - rewrite E in U. rewrite (obj_uses_dir _ b H) in U. discriminate.
+  - rewrite dget_odel, D2. unfold f1. rewrite dget_dput. destruct (digest_eqb_spec (a_digest a) (a_digest b)); [congruence|].
+    apply D. rewrite oget_odel in H. destruct (caddr_eqb a b); [congruence|]. unfold oget in *. rewrite O2 in H. exact H.
+Qed.
+
+(* a decision procedure for DRO (for the concrete witnesses) *)
+Definition DRO_b (f : fsys) : bool :=
+  forallb (fun ae : caddr * entry => match dget f (a_digest (fst ae)) with Some false => true | _ => false end) (objs f).
+Lemma DRO_b_sound f : DRO_b f = true -> DRO f.
+Proof.
+  unfold DRO_b. rewrite forallb_forall. intros H b Hb. destruct (oget f b) as [e|] eqn:G; [|congruence].
+  unfold oget in G. apply (@get_In _ _ _ caddr_eqb_spec) in G. specialize (H _ G). cbn [fst] in H.
+  destruct (dget f (a_digest b)) as [[|]|]; congruence.
 Qed.
